@@ -121,6 +121,9 @@ func runCLI(in []int64) []int64 {
 			createNS = append(createNS, strings.Split(r.URL.Path, "/")[5])
 			w.WriteHeader(http.StatusCreated)
 			w.Write(body)
+		case r.Method == "GET" && strings.HasPrefix(r.URL.Path, "/apis/bus.volcano.sh/v1alpha1/") && strings.HasSuffix(r.URL.Path, "/commands"):
+			// the unchanged CLI never lists Commands; a changed one gets an honest answer (none pending)
+			json.NewEncoder(w).Encode(&bus.CommandList{TypeMeta: metav1.TypeMeta{APIVersion: bus.SchemeGroupVersion.String(), Kind: "CommandList"}})
 		default:
 			unexpected = r.Method + " " + r.URL.Path
 			w.WriteHeader(http.StatusNotFound)
@@ -128,41 +131,7 @@ func runCLI(in []int64) []int64 {
 		}
 	}))
 	defer srv.Close()
-	os.Unsetenv("KUBECONFIG")
-	var err error
-	set := func(c *cobra.Command, k, v string) {
-		if e := c.Flags().Set(k, v); e != nil {
-			panic(e)
-		}
-	}
-	switch verb {
-	case 1:
-		c := &cobra.Command{}
-		clijob.InitSuspendFlags(c)
-		set(c, "master", srv.URL)
-		set(c, "namespace", nsName(ns))
-		set(c, "name", fmt.Sprintf("n%d", name))
-		err = clijob.SuspendJob(ctx)
-	case 2:
-		c := &cobra.Command{}
-		clijob.InitResumeFlags(c)
-		set(c, "master", srv.URL)
-		set(c, "namespace", nsName(ns))
-		set(c, "name", fmt.Sprintf("n%d", name))
-		err = clijob.ResumeJob(ctx)
-	case 3, 4:
-		c := &cobra.Command{}
-		cliqueue.InitOperateFlags(c)
-		set(c, "master", srv.URL)
-		set(c, "name", fmt.Sprintf("n%d", name))
-		set(c, "action", map[int64]string{3: cliqueue.ActionOpen, 4: cliqueue.ActionClose}[verb])
-		err = cliqueue.OperateQueue(ctx)
-	case 5, 6:
-		cs := versioned.NewForConfigOrDie(&rest.Config{Host: srv.URL})
-		err = cliutil.CreateQueueCommand(cs, nsName(ns), fmt.Sprintf("n%d", name), actions[verb-2])
-	default:
-		panic("unknown verb")
-	}
+	err := invokeVerb(verb, srv.URL, ns, name)
 	if err != nil {
 		panic("CLI call failed: " + err.Error())
 	}
@@ -201,6 +170,259 @@ func runCLI(in []int64) []int64 {
 		out = append(out, actionCode(c.Action))
 	}
 	return out
+}
+
+// invokeVerb runs one real CLI entry point against the API server at url.
+func invokeVerb(verb int64, url string, ns, name int64) error {
+	os.Unsetenv("KUBECONFIG")
+	set := func(c *cobra.Command, k, v string) {
+		if e := c.Flags().Set(k, v); e != nil {
+			panic(e)
+		}
+	}
+	switch verb {
+	case 1:
+		c := &cobra.Command{}
+		clijob.InitSuspendFlags(c)
+		set(c, "master", url)
+		set(c, "namespace", nsName(ns))
+		set(c, "name", fmt.Sprintf("n%d", name))
+		return clijob.SuspendJob(ctx)
+	case 2:
+		c := &cobra.Command{}
+		clijob.InitResumeFlags(c)
+		set(c, "master", url)
+		set(c, "namespace", nsName(ns))
+		set(c, "name", fmt.Sprintf("n%d", name))
+		return clijob.ResumeJob(ctx)
+	case 3, 4:
+		c := &cobra.Command{}
+		cliqueue.InitOperateFlags(c)
+		set(c, "master", url)
+		set(c, "name", fmt.Sprintf("n%d", name))
+		set(c, "action", map[int64]string{3: cliqueue.ActionOpen, 4: cliqueue.ActionClose}[verb])
+		return cliqueue.OperateQueue(ctx)
+	case 5, 6:
+		cs := versioned.NewForConfigOrDie(&rest.Config{Host: url})
+		return cliutil.CreateQueueCommand(cs, nsName(ns), fmt.Sprintf("n%d", name), actions[verb-2])
+	}
+	panic("unknown verb")
+}
+
+// encCommand: the tokens of Entry.v eCmd for a Command the API server received in namespace ns.
+func encCommand(c *bus.Command, ns string) []int64 {
+	if c.TargetObject == nil {
+		panic("command without TargetObject")
+	}
+	if c.Namespace != "" && c.Namespace != ns {
+		panic("command namespace differs from the namespace it is created in")
+	}
+	pre := strings.TrimSuffix(c.GenerateName, "-")
+	k := strings.LastIndex(pre, "-")
+	if k < 0 || !strings.HasSuffix(c.GenerateName, "-") {
+		panic("unexpected GenerateName " + c.GenerateName)
+	}
+	pa := int64(0)
+	for j, a := range actions {
+		if j > 0 && strings.ToLower(string(a)) == pre[k+1:] {
+			pa = int64(j)
+		}
+	}
+	out := []int64{idOf("ns", ns), idOf("n", pre[:k]), pa}
+	out = append(out, refTokens(c.TargetObject)...)
+	out = append(out, int64(len(c.OwnerReferences)))
+	for j := range c.OwnerReferences {
+		out = append(out, refTokens(&c.OwnerReferences[j])...)
+	}
+	return append(out, actionCode(c.Action))
+}
+
+// ---------- sel 3: CLI invocations against a scripted API server, then the controllers ----------
+
+type stored struct {
+	ns  string
+	cmd *bus.Command
+}
+
+func statusJSON(w http.ResponseWriter, code int, reason metav1.StatusReason, msg string) {
+	w.WriteHeader(code)
+	json.NewEncoder(w).Encode(&metav1.Status{
+		TypeMeta: metav1.TypeMeta{Kind: "Status", APIVersion: "v1"},
+		Status:   metav1.StatusFailure, Code: int32(code), Reason: reason, Message: msg,
+		Details: &metav1.StatusDetails{Group: "bus.volcano.sh", Kind: "commands"}})
+}
+
+func runE2E(in []int64) []int64 {
+	R := int(in[0])
+	ninv := int(in[1])
+	pos := 2
+	var mu sync.Mutex
+	var persisted []stored
+	counter := 0
+	// the invocation in progress
+	var verb, ns, name, uid, gout int64
+	var script []int64
+	gets, posts := 0, 0
+	var fresh []stored
+	unexpected := ""
+	srv := httptest.NewServer(http.HandlerFunc(func(w http.ResponseWriter, r *http.Request) {
+		mu.Lock()
+		defer mu.Unlock()
+		w.Header().Set("Content-Type", "application/json")
+		jobPath := fmt.Sprintf("/apis/batch.volcano.sh/v1alpha1/namespaces/%s/jobs/n%d", nsName(ns), name)
+		queuePath := fmt.Sprintf("/apis/scheduling.volcano.sh/v1beta1/queues/n%d", name)
+		isTarget := (r.URL.Path == jobPath && verb <= 2) || (r.URL.Path == queuePath && verb > 2)
+		switch {
+		case r.Method == "GET" && isTarget:
+			gets++
+			switch gout {
+			case 1:
+				statusJSON(w, 404, metav1.StatusReasonNotFound, "not found")
+			case 2:
+				statusJSON(w, 500, metav1.StatusReasonInternalError, "injected")
+			default:
+				if verb <= 2 {
+					json.NewEncoder(w).Encode(&batch.Job{
+						TypeMeta:   metav1.TypeMeta{APIVersion: batch.SchemeGroupVersion.String(), Kind: "Job"},
+						ObjectMeta: metav1.ObjectMeta{Namespace: nsName(ns), Name: fmt.Sprintf("n%d", name), UID: types.UID(fmt.Sprintf("u%d", uid))}})
+				} else {
+					json.NewEncoder(w).Encode(&sch.Queue{
+						TypeMeta:   metav1.TypeMeta{APIVersion: sch.SchemeGroupVersion.String(), Kind: "Queue"},
+						ObjectMeta: metav1.ObjectMeta{Name: fmt.Sprintf("n%d", name), UID: types.UID(fmt.Sprintf("u%d", uid))}})
+				}
+			}
+		case r.Method == "GET" && strings.HasPrefix(r.URL.Path, "/apis/bus.volcano.sh/v1alpha1/") && strings.HasSuffix(r.URL.Path, "/commands"):
+			// the unchanged CLI never lists; a changed one sees the pending Commands
+			parts := strings.Split(r.URL.Path, "/")
+			l := &bus.CommandList{TypeMeta: metav1.TypeMeta{APIVersion: bus.SchemeGroupVersion.String(), Kind: "CommandList"}}
+			for _, p := range persisted {
+				if len(parts) < 7 || parts[5] == p.ns {
+					l.Items = append(l.Items, *p.cmd)
+				}
+			}
+			json.NewEncoder(w).Encode(l)
+		case r.Method == "POST" && strings.HasPrefix(r.URL.Path, "/apis/bus.volcano.sh/v1alpha1/namespaces/") && strings.HasSuffix(r.URL.Path, "/commands"):
+			o := int64(0)
+			if posts < len(script) {
+				o = script[posts]
+			}
+			posts++
+			body, _ := io.ReadAll(r.Body)
+			cmd := &bus.Command{}
+			if err := json.Unmarshal(body, cmd); err != nil {
+				unexpected = "undecodable command: " + err.Error()
+			}
+			if cmd.Name != "" {
+				unexpected = "command with a fixed name"
+			}
+			cns := strings.Split(r.URL.Path, "/")[5]
+			if o == 0 || o == 1 { // persisted
+				counter++
+				cmd.Namespace = cns
+				cmd.Name = fmt.Sprintf("%s%05d", cmd.GenerateName, counter)
+				cmd.TypeMeta = metav1.TypeMeta{APIVersion: bus.SchemeGroupVersion.String(), Kind: "Command"}
+				persisted = append(persisted, stored{cns, cmd})
+				fresh = append(fresh, stored{cns, cmd})
+			}
+			switch o {
+			case 0:
+				w.WriteHeader(http.StatusCreated)
+				json.NewEncoder(w).Encode(cmd)
+			case 1, 2:
+				statusJSON(w, 504, metav1.StatusReasonTimeout, "request did not complete within requested timeout")
+			case 3:
+				statusJSON(w, 500, metav1.StatusReasonServerTimeout, "the server was unable to return a response in the time allotted")
+			case 4:
+				statusJSON(w, 500, metav1.StatusReasonInternalError, "injected")
+			case 5:
+				statusJSON(w, 409, metav1.StatusReasonAlreadyExists, "already exists")
+			default:
+				statusJSON(w, 409, metav1.StatusReasonConflict, "conflict")
+			}
+		default:
+			unexpected = r.Method + " " + r.URL.Path
+			statusJSON(w, 404, metav1.StatusReasonNotFound, "unexpected request")
+		}
+	}))
+	defer srv.Close()
+	var out []int64
+	for k := 1; k <= ninv; k++ {
+		mu.Lock()
+		verb, ns, name, uid, gout = in[pos], in[pos+1], in[pos+2], in[pos+3], in[pos+4]
+		L := int(in[pos+5])
+		script = in[pos+6 : pos+6+L]
+		pos += 6 + L
+		gets, posts, fresh = 0, 0, nil
+		mu.Unlock()
+		err := invokeVerb(verb, srv.URL, ns, name)
+		mu.Lock()
+		if unexpected != "" {
+			panic("unexpected request to the API server: " + unexpected)
+		}
+		out = append(out, int64(-100-k), vh.B(err == nil), int64(gets), int64(posts), int64(len(fresh)))
+		for _, f := range fresh {
+			out = append(out, encCommand(f.cmd, f.ns)...)
+		}
+		mu.Unlock()
+	}
+	// the controllers consume what the CLI left behind: R deliveries of each Command, in order
+	vc := vcfake.NewSimpleClientset()
+	for _, p := range persisted {
+		if _, err := vc.BusV1alpha1().Commands(p.ns).Create(ctx, p.cmd.DeepCopy(), metav1.CreateOptions{}); err != nil {
+			panic(err)
+		}
+	}
+	if jobCtl == nil {
+		jobCtl = jc.VerifCmdNewController(vc, kubefake.NewSimpleClientset(), 3)
+	} else {
+		jobCtl.VerifCmdReset(vc)
+	}
+	if queueCtl == nil {
+		queueCtl = qc.NewVerifController(vc, kubefake.NewSimpleClientset(), -1)
+	} else {
+		queueCtl.Reset(vc, kubefake.NewSimpleClientset(), -1)
+	}
+	var reqs []int64
+	nreq := 0
+	for _, p := range persisted {
+		switch {
+		case p.cmd.TargetObject != nil && p.cmd.TargetObject.Kind == "Job" && p.cmd.TargetObject.APIVersion == batch.SchemeGroupVersion.String():
+			for i := 0; i < R; i++ {
+				jobCtl.VerifCmdDeliver(p.cmd.DeepCopy())
+			}
+			for jobCtl.VerifCmdProcessNext() {
+			}
+			for _, r := range jobCtl.VerifCmdRequests() {
+				if r.Event != bus.CommandIssuedEvent {
+					panic("request without CommandIssued event")
+				}
+				reqs = append(reqs, 1, idOf("ns", r.Namespace), idOf("n", r.JobName), actionCode(string(r.Action)))
+				nreq++
+			}
+		case qc.IsQueueReference(p.cmd.TargetObject):
+			for i := 0; i < R; i++ {
+				queueCtl.AddCommand(p.cmd.DeepCopy())
+			}
+			for queueCtl.ProcessNextCommand() {
+			}
+			for _, r := range queueCtl.Q.Items() {
+				if r.Event != bus.CommandIssuedEvent {
+					panic("request without CommandIssued event")
+				}
+				reqs = append(reqs, 2, -1, idOf("n", r.QueueName), actionCode(string(r.Action)))
+				nreq++
+			}
+			queueCtl.Q.SetItems(nil)
+		default:
+			panic("a Command no controller's informer filter accepts")
+		}
+	}
+	left, _ := vc.BusV1alpha1().Commands("").List(ctx, metav1.ListOptions{})
+	if len(left.Items) != 0 {
+		panic("commands retained after execution")
+	}
+	out = append(out, -99, int64(nreq))
+	return append(out, reqs...)
 }
 
 // ---------- sel 2: controllers ----------
@@ -342,6 +564,8 @@ func run(sel int, in []int64) []int64 {
 		return runCLI(in)
 	case 2:
 		return runCtl(in)
+	case 3:
+		return runE2E(in)
 	}
 	panic("unknown selector")
 }
@@ -397,6 +621,62 @@ func gen(rng *vh.Rng, n int, emit func(id string, sel int, in []int64, kind stri
 	}
 }
 
+func genE2E(rng *vh.Rng, n int, emit func(id string, sel int, in []int64, kind string, nontrivial bool, desc any)) {
+	pair := map[int64]int64{1: 2, 2: 1, 3: 4, 4: 3, 5: 6, 6: 5}
+	for i := 0; i < n; i++ {
+		r := rng.Fork()
+		ninv := r.Range(1, 3)
+		in := []int64{int64(r.Range(1, 3)), int64(ninv)}
+		faults := 0
+		var pv, pns, pname, puid int64
+		for k := 0; k < ninv; k++ {
+			verb := int64(r.Range(1, 6))
+			if i < 12 && k == 0 {
+				verb = int64(i%6 + 1)
+			}
+			ns, name, uid := int64(r.Range(0, 3)), int64(r.Range(1, 6)), int64(r.Range(1, 1000))
+			if k > 0 && r.Chance(2, 3) {
+				// the same target again while the earlier Command is still pending, usually with the other action
+				verb, ns, name, uid = pair[pv], pns, pname, puid
+				if r.Chance(1, 4) {
+					verb = pv
+				}
+			}
+			pv, pns, pname, puid = verb, ns, name, uid
+			gout := int64(0)
+			if r.Chance(1, 8) {
+				gout = int64(r.Range(1, 2))
+			}
+			L := 0
+			if r.Chance(1, 2) {
+				L = r.Range(1, 3)
+			}
+			in = append(in, verb, ns, name, uid, gout, int64(L))
+			for j := 0; j < L; j++ {
+				o := int64(vh.Pick(r, []int{0, 1, 1, 1, 2, 3, 4, 5, 6}))
+				if i < 12 && k == 0 && j == 0 {
+					o = 1 // every verb sees "persisted, then 504 Timeout" at least once
+				}
+				if o != 0 {
+					faults++
+				}
+				in = append(in, o)
+			}
+			if gout != 0 {
+				faults++
+			}
+		}
+		kind := "e2e/clean"
+		if faults > 0 {
+			kind = "e2e/faults"
+		}
+		emit(fmt.Sprintf("e2e-%d", i), 3, in, kind, ninv >= 2 || faults > 0, map[string]any{"invocations": ninv, "faults": faults})
+	}
+}
+
 func main() {
-	vh.Harness{Run: run, Laws: laws, Gen: gen}.Main()
+	vh.Harness{Run: run, Laws: laws, Gen: func(rng *vh.Rng, n int, emit func(id string, sel int, in []int64, kind string, nontrivial bool, desc any)) {
+		gen(rng, n, emit)
+		genE2E(rng.Fork(), n/2+12, emit)
+	}}.Main()
 }
